@@ -77,6 +77,19 @@ impl ParamValue {
     }
 }
 
+///
+/// Parse a float literal.
+/// A literal that overflows (like 1.0e999) is parsed to an infinite value by the standard library:
+/// it can neither be stored in JSON nor be written in a SQL statement
+///
+pub fn parse_float(value: &str) -> Result<f64, Error> {
+    let float: f64 = value.parse()?;
+    if !float.is_finite() {
+        return Err(Error::InvalidFloat(float));
+    }
+    Ok(float)
+}
+
 #[derive(Debug, PartialEq, Eq)]
 pub enum VariableType {
     Boolean(bool),
